@@ -7,6 +7,7 @@ package hx
 import (
 	"bytes"
 	"encoding/hex"
+	"errors"
 	"fmt"
 	"math/big"
 	"sort"
@@ -29,7 +30,11 @@ type NOp struct {
 	TwoCB    bool     `json:"twocb,omitempty"`
 	Target   int      `json:"target,omitempty"`
 	Prune    bool     `json:"prune,omitempty"`
-	Expect   string   `json:"expect,omitempty"` // informational: what the generator intended
+	Expect   string   `json:"expect,omitempty"`   // informational: what the generator intended
+	BuildAt  *int     `json:"buildat,omitempty"`  // tx: assemble against the state after this block (stale candidates)
+	AwardAdd int64    `json:"awardadd,omitempty"` // peer: award = CalcAward(height) + AwardAdd (adversarial)
+	Old      []string `json:"old,omitempty"`      // peer: txids (hex) of already confirmed transactions to re-include
+	TxsAt    *int     `json:"txsat,omitempty"`    // peer: assemble the block's transactions against the state after this block (adversarial)
 }
 
 // NodeMachine couples a real node with the reference model.
@@ -50,6 +55,7 @@ type NodeMachine struct {
 	// statistics for non-triviality rules / labels
 	Stat map[string]int
 	// CheckFresh: compare with a freshly replayed node after walks and at the end
+	Specs       map[string]TxSpec // every spec submitted through a "tx" op, by txid
 	LastOutcome string
 	LastUndo    int // number of blocks the last walk had to undo
 }
@@ -61,7 +67,7 @@ func NewNodeMachine(opts NodeOpts, fs *FindingSet) (*NodeMachine, error) {
 		return nil, err
 	}
 	nm := &NodeMachine{N: n, FS: fs, BlockTxs: map[int][]*pb.Transaction{}, States: map[int]*MState{}, Valid: map[int]bool{},
-		Seq: 100, Window: opts.Window, KeyUniv: map[string]bool{}, Stat: map[string]int{}}
+		Seq: 100, Window: opts.Window, KeyUniv: map[string]bool{}, Stat: map[string]int{}, Specs: map[string]TxSpec{}}
 	nm.LM = NewLedgerMachineOn(func() *ledgerpkg.Ledger { return nm.N.Ledger }, n.Root, fs)
 	s := NewMState()
 	root := CloneTxs(n.Root.Transactions)
@@ -146,7 +152,17 @@ func (nm *NodeMachine) Apply(op NOp) error {
 	switch op.Op {
 	case "tx":
 		s := nm.PoolState()
-		tx, pre := nm.buildOn(op.Tx, s, true)
+		var tx *pb.Transaction
+		var pre *PreExecResult
+		if op.BuildAt != nil && *op.BuildAt >= 0 && *op.BuildAt < len(m.Blocks) && nm.States[*op.BuildAt] != nil {
+			tx, pre = nm.buildOn(op.Tx, nm.States[*op.BuildAt], false)
+			nm.Stat["tx-built-on-old-state"]++
+		} else {
+			tx, pre = nm.buildOn(op.Tx, s, true)
+		}
+		if tx != nil {
+			nm.Specs[hex.EncodeToString(tx.Txid)] = *op.Tx
+		}
 		if tx == nil {
 			nm.LastOutcome = "preexec-failed"
 			nm.Stat["preexec-failed"]++
@@ -154,6 +170,14 @@ func (nm *NodeMachine) Apply(op NOp) error {
 			return nil
 		}
 		want := s.Check(tx, nm.ledgerHeight())
+		if want == nil && tx.Coinbase {
+			want = fmt.Errorf("coinbase transaction submitted to the pool")
+		}
+		if want == nil && len(tx.TxInputs) == 0 && !nm.N.Opts.NoFee {
+			want = fmt.Errorf("no inputs") // Chain.SubmitTx refuses it; the state layer need not
+			nm.LastOutcome = "skipped"
+			return nil
+		}
 		sub := CloneTx(tx)
 		ok, verr := n.State.VerifyTx(sub)
 		var derr error
@@ -175,6 +199,9 @@ func (nm *NodeMachine) Apply(op NOp) error {
 		} else {
 			nm.LastOutcome = "refused"
 			nm.Stat["tx-refused"]++
+			if errors.Is(want, ErrStale) {
+				nm.Stat["tx-refused-stale"]++
+			}
 		}
 	case "mine":
 		if nm.Ptr != m.Tip {
@@ -249,15 +276,25 @@ func (nm *NodeMachine) Apply(op NOp) error {
 			valid = false
 		}
 		award := n.Ledger.GenesisBlock.CalcAward(height)
+		if op.AwardAdd != 0 {
+			award = new(big.Int).Add(award, big.NewInt(op.AwardAdd))
+		}
 		txs := []*pb.Transaction{AwardTx(prop.Address, award, "award-"+op.Label, nm.LM.Ts)}
 		s.Apply(txs[0], prop.Address)
 		if op.TwoCB {
 			txs = append(txs, AwardTx(prop.Address, award, "award2-"+op.Label, nm.LM.Ts))
 		}
+		buildState := s
+		if op.TxsAt != nil && *op.TxsAt >= 0 && *op.TxsAt < len(m.Blocks) && nm.States[*op.TxsAt] != nil {
+			buildState = nm.States[*op.TxsAt].Clone()
+		}
 		for i := range op.Txs {
-			tx, _ := nm.buildOn(&op.Txs[i], s, false)
+			tx, _ := nm.buildOn(&op.Txs[i], buildState, false)
 			if tx == nil {
 				continue
+			}
+			if buildState != s {
+				buildState.Apply(tx, prop.Address)
 			}
 			if err := s.Check(tx, height); err != nil {
 				valid = false
@@ -273,9 +310,40 @@ func (nm *NodeMachine) Apply(op NOp) error {
 				}
 			}
 		}
+		for _, idHex := range op.Old {
+			for _, btxs := range nm.blockTxsSorted() {
+				for _, otx := range btxs {
+					if hex.EncodeToString(otx.Txid) == idHex && !otx.Coinbase {
+						if s.Check(otx, height) != nil {
+							valid = false
+						}
+						s.Apply(otx, prop.Address)
+						txs = append(txs, CloneTx(otx))
+						idHex = ""
+					}
+				}
+			}
+		}
 		blk, err := MakeBlock(n.Ledger, prop, preHash, height, nm.LM.Ts, txs)
 		if err != nil {
 			return err
+		}
+		// what miner.ProcBlock / batchConfirmBlock do before the ledger sees a pushed block
+		for i, tx := range blk.Transactions {
+			if !n.Ledger.IsValidTx(i, tx, blk) {
+				if op.AwardAdd == 0 {
+					return fmt.Errorf("IsValidTx refuses transaction %d of block %s whose award is CalcAward(height)", i, op.Label)
+				}
+				nm.LastOutcome = "forbidden"
+				nm.Stat["peer-forbidden-bad-award"]++
+				return nil
+			}
+		}
+		if op.AwardAdd != 0 {
+			return fmt.Errorf("IsValidTx accepts block %s whose award differs from CalcAward(%d) by %d", op.Label, height, op.AwardAdd)
+		}
+		if ok, _ := n.Ledger.VerifyBlock(blk, ""); !ok {
+			return fmt.Errorf("VerifyBlock refuses block %s formatted by the node", op.Label)
 		}
 		pristine := CloneTxs(txs)
 		stored, err := nm.LM.ConfirmPrepared(op.Label, parent, blk, op.TwoCB)
@@ -357,6 +425,115 @@ func (nm *NodeMachine) Apply(op NOp) error {
 		return fmt.Errorf("unknown node op %q", op.Op)
 	}
 	return nil
+}
+
+// DeepKeyHistory: some key has, along the pointer's chain, >= 3 versions including a delete.
+func (nm *NodeMachine) DeepKeyHistory() bool {
+	m := nm.LM.M
+	vers := map[string]map[string]bool{}
+	dels := map[string]bool{}
+	for j := nm.Ptr; j >= 0; j = m.Blocks[j].Parent {
+		for _, tx := range nm.BlockTxs[j] {
+			for off, oe := range tx.TxOutputsExt {
+				if oe.Bucket == TransientBucket {
+					continue
+				}
+				rk := RawKey(oe.Bucket, string(oe.Key))
+				if vers[rk] == nil {
+					vers[rk] = map[string]bool{}
+				}
+				vers[rk][fmt.Sprintf("%x_%d", tx.Txid, off)] = true
+				if string(oe.Value) == DelFlag {
+					dels[rk] = true
+				}
+			}
+		}
+	}
+	for rk, v := range vers {
+		if len(v) >= 3 && dels[rk] {
+			return true
+		}
+	}
+	return false
+}
+
+// blockTxsSorted returns the per-block transaction lists in block-index order.
+func (nm *NodeMachine) blockTxsSorted() [][]*pb.Transaction {
+	idx := make([]int, 0, len(nm.BlockTxs))
+	for i := range nm.BlockTxs {
+		idx = append(idx, i)
+	}
+	sort.Ints(idx)
+	out := make([][]*pb.Transaction, 0, len(idx))
+	for _, i := range idx {
+		out = append(out, nm.BlockTxs[i])
+	}
+	return out
+}
+
+// CheckSnapshots (C18): with the state pointer on the ledger's main chain, a snapshot at every
+// ancestor block B of the pointer returns for every key what the model has at B.
+func (nm *NodeMachine) CheckSnapshots() (int, error) {
+	m := nm.LM.M
+	if !m.OnMain(nm.Ptr) {
+		return 0, nil
+	}
+	n := 0
+	for j := nm.Ptr; j >= 0; j = m.Blocks[j].Parent {
+		b := m.Blocks[j]
+		snap, err := nm.N.State.CreateSnapshot(b.ID)
+		if err != nil {
+			return n, fmt.Errorf("CreateSnapshot(%s): %v", b.Label, err)
+		}
+		rd, err := nm.N.State.CreateXMSnapshotReader(b.ID)
+		if err != nil {
+			return n, fmt.Errorf("CreateXMSnapshotReader(%s): %v", b.Label, err)
+		}
+		for _, rk := range nm.rawKeys() {
+			i := strings.Index(rk, "/")
+			bucket, key := rk[:i], rk[i+1:]
+			want := nm.States[j].KV[rk]
+			vd, err := snap.Get(bucket, []byte(key))
+			if err != nil {
+				return n, fmt.Errorf("snapshot(%s).Get(%s): %v", b.Label, rk, err)
+			}
+			gotVer := ""
+			if vd.RefTxid != nil {
+				gotVer = fmt.Sprintf("%x_%d", vd.RefTxid, vd.RefOffset)
+			}
+			var wantVal []byte
+			if want != nil {
+				wantVal = want.Value
+			}
+			if gotVer != want.Version() || !bytes.Equal(vd.GetPureData().GetValue(), wantVal) {
+				return n, fmt.Errorf("snapshot at %s (height %d, pointer %s, %d pending): key %s = %q@%s, model at that block %q@%s", b.Label, b.Height, m.Blocks[nm.Ptr].Label, len(nm.Pool), rk, vd.GetPureData().GetValue(), gotVer, wantVal, want.Version())
+			}
+			v2, err := rd.Get(bucket, []byte(key))
+			if err != nil || !bytes.Equal(v2, wantVal) {
+				return n, fmt.Errorf("snapshot reader at %s: key %s = %q/%v, model %q", b.Label, rk, v2, err, wantVal)
+			}
+			n++
+		}
+	}
+	// tip snapshot never exposes pending writes
+	tip, err := nm.N.State.GetTipXMSnapshotReader()
+	if err != nil {
+		return n, fmt.Errorf("GetTipXMSnapshotReader: %v", err)
+	}
+	for _, rk := range nm.rawKeys() {
+		i := strings.Index(rk, "/")
+		want := nm.States[nm.Ptr].KV[rk]
+		var wantVal []byte
+		if want != nil {
+			wantVal = want.Value
+		}
+		v, err := tip.Get(rk[:i], []byte(rk[i+1:]))
+		if err != nil || !bytes.Equal(v, wantVal) {
+			return n, fmt.Errorf("tip snapshot: key %s = %q/%v, model at the pointer (without pending) %q", rk, v, err, wantVal)
+		}
+		n++
+	}
+	return n, nil
 }
 
 // blockAppliesOn: do the block's non-pending transactions apply validly, in order, on state s?
